@@ -6,7 +6,7 @@ import signal
 from mc.core import UnitResult
 
 ID = "C12"
-PARTS = ['batch', 'value-op']      # outcome classes every run must produce (guards against a part of the exploration silently not running)
+PARTS = ['batch', 'value-op', 'harv']      # outcome classes every run must produce (guards against a part of the exploration silently not running)
 RULE = ("state A = program: every expression form of the Python 3.12 grammar instantiated over an atom pool (depth 1 quick, depth 2 thorough) placed in every statement context "
         "(assignment targets/values, annotations plain and quoted, call arguments incl. * and **, decorators, defaults, base classes, subscripts, f-strings, comprehensions, lambda, "
         "match, with/for/async/await/yield, raise/assert/except, global/nonlocal/del), deliberately ill-typed, under three configurations (test defaults, all codes on, all off); "
@@ -141,7 +141,7 @@ def bounds(tier):
 
 def units(tier):
     n = len(_progs(tier))
-    return [("prog", tier, i, min(n, i + BATCH)) for i in range(0, n, BATCH)] + [("values", tier, i, 0) for i in range(8)]
+    return [("prog", tier, i, min(n, i + BATCH)) for i in range(0, n, BATCH)] + [("values", tier, i, 0) for i in range(8)] + [("harv", tier, i, i + HV_STEP) for i in range(0, 920, HV_STEP)]
 
 
 class _Timeout(Exception):
@@ -172,7 +172,7 @@ def _exc_sig(tb_text):
     return exc, where
 
 
-def _check_batch(res, srcs, cfg, base, tier):
+def _check_batch(res, srcs, cfg, base, tier, harvested=False):
     import traceback
     import warnings
     from pyanalyze.error_code import ErrorCode
@@ -189,7 +189,11 @@ def _check_batch(res, srcs, cfg, base, tier):
     try:
         with warnings.catch_warnings():
             warnings.simplefilter("ignore")
-            fails = check(code, checker=_checker(cfg))
+            if harvested:
+                from pa.run import test_module_factory
+                fails = check(code, checker=_checker(cfg), module_factory=test_module_factory())
+            else:
+                fails = check(code, checker=_checker(cfg))
         signal.alarm(0)
     except _Timeout:
         signal.alarm(0)
@@ -214,8 +218,11 @@ def _check_batch(res, srcs, cfg, base, tier):
         lineno = f.get("lineno")
         col = f.get("col_offset")
         k = owner(lineno) if isinstance(lineno, int) else 0
-        case = {"mode": "prog", "src": srcs[k], "cfg": cfg, "order": base + k}
+        case = {"mode": "prog", "src": srcs[k], "cfg": cfg, "order": base + k, "harvested": harvested}
         if cname == "internal_error":
+            if harvested and re.search(r'File "[0-9a-f]{32,}\.py"', f.get("description", "")):
+                res.outcomes["harv:user-callback-raised"] += 1
+                continue        # the exception was raised by code of the checked program that pyanalyze calls back (a CustomCheck, a decorator): not pyanalyze's failure
             exc, where = _exc_sig(f.get("description", ""))
             res.violation({"kind": "internal_error", "exc": exc, "where": where}, case, "internal_error (%s in %s) while checking [%s]\n%s" % (exc, where, cfg, srcs[k]))
             continue
@@ -305,9 +312,93 @@ def _values(res, tier, shard, only=None):
     res.sample({"a": str(P[shard]), "b": str(P[-1 - shard])}, limit=1)
 
 
+# ---- ill-formed variants of realistic programs: the test-suite programs (ref/harvest.py) with one function-body statement deleted / two adjacent ones swapped
+HV_STEP = 30
+
+
+def harvest_variants(src):
+    """[(label, source)]: the program itself and every variant obtained by deleting one statement of a function body (or of a block nested in
+    one) or swapping two adjacent ones.  Function bodies do not run at import, so every variant can be loaded."""
+    import ast
+    out = [("orig", src)]
+    try:
+        tree = ast.parse(src)
+    except SyntaxError:
+        return out
+    blocks = []
+    for fn in ast.walk(tree):
+        if isinstance(fn, (ast.FunctionDef, ast.AsyncFunctionDef)):
+            for node in ast.walk(fn):
+                for field in ("body", "orelse", "finalbody"):
+                    b = getattr(node, field, None)
+                    if isinstance(b, list) and b and isinstance(b[0], ast.stmt) and not any(b is x for x in blocks):
+                        blocks.append(b)
+    for bi, b in enumerate(blocks):
+        for i in range(len(b)):
+            saved = list(b)
+            del b[i]
+            if not b:
+                b.append(ast.Pass())
+            try:
+                out.append(("del:%d:%d" % (bi, i), ast.unparse(tree) + "\n"))
+            except Exception:
+                pass
+            b[:] = saved
+            if i + 1 < len(b):
+                b[i], b[i + 1] = b[i + 1], b[i]
+                try:
+                    out.append(("swap:%d:%d" % (bi, i), ast.unparse(tree) + "\n"))
+                except Exception:
+                    pass
+                b[:] = saved
+    good = []
+    for label, v in out:
+        try:
+            compile(v, "<c12h>", "exec")
+            good.append((label, v))
+        except (SyntaxError, ValueError):
+            pass       # e.g. `nonlocal` / `return` left in a position where they are not allowed
+    return good
+
+
+def _hprogs():
+    # programs that implement a pyanalyze plug-in interface (CustomCheck) are left out: a deleted statement makes *their* callback break its contract
+    from props.c10_harvest import hcorpus
+    return [x for x in hcorpus() if "CustomCheck" not in x[1]]
+
+
+def _harv(res, tier, lo, hi):
+    H = _hprogs()
+    for pi in range(lo, min(hi, len(H))):
+        name, src, settings = H[pi]
+        vs = harvest_variants(src)
+        for cfg in (CONFIGS if tier == "thorough" else CONFIGS[:1]):
+            for vi, (label, v) in enumerate(vs):
+                res.states += 1
+                st, inf = _check_batch(res, [v], cfg, 3 * 10 ** 8 + pi * 1000 + vi, tier, harvested=True)
+                res.outcomes["harv:%s" % st] += 1
+                if st == "raised":
+                    exc, where = _exc_sig(inf)
+                    if where in ("?", "analysis_lib.py:make_module"):
+                        res.outcomes["harv:unloadable"] += 1
+                        if label == "orig":
+                            break      # the program itself cannot be imported in this harness (its test needs more context): nothing to check
+                        continue       # this variant raises while it is imported (a function that runs at import was changed): not a program
+                    res.violation({"kind": "exception-escapes", "exc": exc, "where": where, "family": "harvested"}, {"mode": "prog", "src": v, "cfg": cfg, "order": 3 * 10 ** 8 + pi * 1000 + vi, "harvested": True},
+                                  "check() raised %s (in %s) under [%s] on a variant (%s) of test-suite program %s:\n%s" % (exc, where, cfg, label, name, v))
+                elif st == "timeout":
+                    res.violation({"kind": "does-not-terminate", "family": "harvested"}, {"mode": "prog", "src": v, "cfg": cfg, "order": 3 * 10 ** 8 + pi * 1000 + vi, "harvested": True},
+                                  "check() did not finish within 60 s under [%s] on a variant (%s) of %s" % (cfg, label, name))
+    if lo < len(H):
+        res.sample({"harvested_program": H[lo][0], "variants": len(harvest_variants(H[lo][1]))})
+
+
 def run_unit(unit):
     kind, tier, lo, hi = unit
     res = UnitResult()
+    if kind == "harv":
+        _harv(res, tier, lo, hi)
+        return res
     if kind == "prog":
         _run_programs(res, tier, lo, hi)
     else:
@@ -318,7 +409,7 @@ def run_unit(unit):
 def replay(case):
     res = UnitResult()
     if case["mode"] == "prog":
-        status, info = _check_batch(res, [case["src"]], case["cfg"], case.get("order", 0), "quick")
+        status, info = _check_batch(res, [case["src"]], case["cfg"], case.get("order", 0), "quick", harvested=bool(case.get("harvested")))
         if status == "raised":
             exc, where = _exc_sig(info)
             res.violation({"kind": "exception-escapes", "exc": exc, "where": where}, case, "check() raised %s" % exc)
